@@ -179,7 +179,7 @@ Definition k_fstatat_mtime (dir name : str) : M (Z + errno) :=
       (fun e => inr e).
 
 Definition k_access (p : str) : M bool :=
-  sys (CAccess p) (fun f => if fs_exists p f then (RInt 0, true, f) else (RErr ENOENT, false, f))
+  sys (CAccess p) (fun f => if fs_exists p f then (RInt 0, true, f) else (RErr (missing_errno p f), false, f))
       (fun _ => false).
 
 Definition k_scandir (p : str) : M (list str + errno) :=
